@@ -126,18 +126,22 @@ pub fn pp_case(idx: usize, src: &str, origin: &str) -> Value {
 
 // ------------------------------------------------------------------ random abstract programs
 const NAMES: &[&str] = &["A", "B", "C", "t", "list", "record_", "Z9", "a_b", "ab", "class", "return", "Self", "type_", "null_", "Ok", "é", "a b", "nat2", "\"q\"", "x\u{0}y", "0a", "", "*/", "${x}", "`b`", "'s'", "line\nbreak"];
+pub const RS_FIELD_NAMES: &[&str] = &["a", "b", "ab", "a_b", "aB", "A_b", "type", "Type", "Match", "fn", "self", "Self", "ref", "Ref", "id", "x1", "camelCase", "snake_case", "é", "a b", "0", "Ok", "Err", "ok", "err", "crate", "r#x"];
 const FIELD_NAMES: &[&str] = &["a", "b", "ab", "ba", "id", "type", "fn", "0", "é", "a b", "x\u{0}1", "record", "\\", "\"", "Ok", "Err", "*/", "from", "self"];
-pub struct PG { pub rng: StdRng, pub ndefs: usize, pub ident_methods: bool, pub valid: bool, pub docs: bool, pub hostile: bool, pub uniq: usize }
+pub struct PG { pub rng: StdRng, pub ndefs: usize, pub ident_methods: bool, pub valid: bool, pub docs: bool, pub hostile: bool, pub uniq: usize, pub rs_names: bool, pub no_numeric: bool }
 const DOCS: &[&str] = &["plain text", "*/ INJ1 /*", "// INJ2", "\" INJ3 \"", "' + INJ4 + '", "`${INJ5}`", "*/", "/*", "\\", "ends with backslash \\", "</script>", "é", "*\\/ INJ6 /*", "*/*/ INJ13"];
 const HOSTILE: &[&str] = &["a\"; INJ7; \"", "b'; INJ8; '", "*/ INJ9 /*", "\\\"; INJ10; //", "x\n INJ11", "`${INJ12}`", "'", "\\", "\\'"];
 impl PG {
     fn prim(&mut self) -> Value { let n = *["nat", "int", "text", "bool", "null", "reserved", "empty", "principal", "nat8", "int64", "float64", "nat16"].choose(&mut self.rng).unwrap(); json!({"k": "prim", "n": n}) }
-    fn defname(&mut self, i: usize) -> String { if i < NAMES.len() && self.rng.gen_bool(0.5) { NAMES[i].to_string() } else { format!("T{i}") } }
+    fn defname(&mut self, i: usize) -> String {
+        if self.rs_names { return ["a_b", "a", "ab", "A", "aB", "list", "Type", "type_", "self_", "T1", "t1", "Box", "Option", "Vec", "String", "Result", "Nat", "Principal"].choose(&mut self.rng).unwrap().to_string(); }
+        if i < NAMES.len() && self.rng.gen_bool(0.5) { NAMES[i].to_string() } else { format!("T{i}") }
+    }
     fn doc(&mut self) -> Value { if self.docs && self.rng.gen_bool(0.5) { let n = self.rng.gen_range(1..3); json!((0..n).map(|_| *DOCS.choose(&mut self.rng).unwrap()).collect::<Vec<_>>()) } else { json!([]) } }
     fn label(&mut self) -> Value {
         if self.hostile && self.rng.gen_bool(0.3) { let n = *HOSTILE.choose(&mut self.rng).unwrap(); return json!({"k": "name", "b": bytesj(n.as_bytes())}); }
-        if self.rng.gen_bool(0.3) { let v = *[0u32, 1, 2, 97, 98, 1000, 65536, 4294967295, 24860].choose(&mut self.rng).unwrap(); json!({"k": "id", "v": u32j(v)}) }
-        else { let n = *FIELD_NAMES.choose(&mut self.rng).unwrap(); json!({"k": "name", "b": bytesj(n.as_bytes())}) }
+        if !self.no_numeric && self.rng.gen_bool(0.3) { let v = *[0u32, 1, 2, 97, 98, 1000, 65536, 4294967295, 24860].choose(&mut self.rng).unwrap(); json!({"k": "id", "v": u32j(v)}) }
+        else { let n = if self.rs_names { *RS_FIELD_NAMES.choose(&mut self.rng).unwrap() } else { *FIELD_NAMES.choose(&mut self.rng).unwrap() }; json!({"k": "name", "b": bytesj(n.as_bytes())}) }
     }
     fn var(&mut self, names: &[String]) -> Value {
         if !self.valid && self.rng.gen_range(0..40) == 0 { return json!({"k": "var", "n": "Undefined_"}); }
@@ -238,10 +242,11 @@ pub fn run(o: &Opts) {
         }
         idx += 1;
     }
-    let mut g = PG { rng: StdRng::seed_from_u64(o.seed), ndefs: 5, ident_methods: false, valid: false, docs: mode == "bind", hostile: mode == "bind", uniq: if mode == "bind" { 1 } else { 0 } };
+    let mut g = PG { rng: StdRng::seed_from_u64(o.seed), ndefs: 5, ident_methods: false, valid: false, docs: mode == "bind", hostile: mode == "bind", uniq: if mode == "bind" { 1 } else { 0 }, rs_names: mode == "rs", no_numeric: false };
     for i in 0..o.n {
         g.valid = mode != "wf" || i % 2 == 0;
         g.ident_methods = i % 3 == 0;
+        g.no_numeric = mode == "rs" && i % 3 != 2;
         let p = g.prog();
         let v = match mode {
             "wf" => wf_case(idx, "wfr", &p, None),
